@@ -676,6 +676,11 @@ func c12Fixed(tier string) []lib.Case {
 		{Header: "M C12", Tags: []string{"sprestart", "published"}, Ops: []string{
 			"savepoint - 1,2", "srack 2 1 4", "create 1 1", "srack 1 1 5", "sprestart 2 same", "sprestart 1 same", "current", "create 1 1",
 			"opack 1 2 0", "srack 1 2 6", "current", "sprestart 1 fresh", "savepoint 1 1"}},
+		// D49 (repaired): rolling back to savepoint 1 in the job's own storage, which holds checkpoint 3: the next
+		// id is 4 (not 2 again) and a later plain restart resumes from 4 (not from the old timeline's 3)
+		{Header: "M C12", Tags: []string{"D49", "sprestart", "published", "restart"}, Ops: []string{
+			"savepoint - 1", "srack 1 1 4", "create 1 1", "opack 1 2 0", "srack 1 2 5", "create 1 1", "opack 1 3 0", "srack 1 3 6",
+			"sprestart 1 same", "current", "create 1 1", "opack 1 4 9", "srack 1 4 9", "restart", "current", "create 1 1"}},
 		// savepoint folds into the pending checkpoint; second request refused
 		{Header: "M C12", Tags: []string{"published"}, Ops: []string{
 			"create 1 1", "savepoint 1 1", "savepoint 1 1", "create 1 1", "opack 1 1 0", "srack 1 1 1", "savepoint - -", "opack 5 2 0", "current"}},
